@@ -120,7 +120,10 @@ bool FeatureChecker::isRateDisallowedInSymbolic(const expression_t& e)
         }
 
         // rates over hybrid clocks are allowed, because they are ignored/abstracted in symbolic analysis
-        if (clock.get(0).get_symbol().get_type().is(Constants::HYBRID))
+        const auto clock_symbol = clock.get(0).get_symbol();
+        if (clock_symbol == symbol_t{})  // not a plain clock reference, e.g. a rate of a rate: x'' == 8
+            return true;
+        if (clock_symbol.get_type().is(Constants::HYBRID))
             return false;
 
         if (rate.get_kind() != Constants::CONSTANT)
